@@ -33,7 +33,15 @@ int xv_threw; uint64_t xv_clock, xv_rmw_old; _Bool xv_cas_ok;
 #ifndef XV_B
 #define XV_B 100
 #endif
+#ifndef XV_BS
+#define XV_BS 2      /* max slots of a dynamic block */
+#endif
+#define XV_NB 2      /* max number of chained dynamic blocks (of entry 0) */
+#ifdef XV_DYNAMIC
+#define VCAP (XV_E * XV_K + XV_NB * XV_BS)
+#else
 #define VCAP (XV_E * XV_K)
+#endif
 #define NN (XV_L + XV_LA + 1)
 #define MARK_BIT ((uintptr_t)1 << 63)
 
@@ -65,6 +73,8 @@ struct node nd0, nd1, nd2, nd3, nd4, nd5, nd6, nd7, nd8, nd9; struct tcb te0, te
 static struct node* NODE(unsigned i) { struct node* r = (struct node*)0;
   if (i == 0) r = &nd0; if (i == 1) r = &nd1; if (i == 2) r = &nd2; if (i == 3) r = &nd3; if (i == 4) r = &nd4; if (i == 5) r = &nd5; if (i == 6) r = &nd6; if (i == 7) r = &nd7; if (i == 8) r = &nd8; if (i == 9) r = &nd9; return r; }
 static struct tcb* ENTRY(unsigned k) { struct tcb* r = (struct tcb*)0; if (k == 0) r = &te0; if (k == 1) r = &te1; if (k == 2) r = &te2; if (k == 3) r = &te3; if (k == 4) r = &te4; return r; }
+struct dynblk { struct hpblock h; struct slot s[XV_BS]; } db0, db1;
+static struct dynblk* DBLK(unsigned b) { return b == 0 ? &db0 : &db1; }
 #define npool(j) (*NODE(j))
 #define epool(k) (*ENTRY(k))
 struct tbl global_thread_block_list; struct td local_thread_data;
@@ -142,11 +152,16 @@ static void vec_erase(struct vec* v, cit first, cit last) { if (last != &v->data
 /* ---- ghost event record of a scan ---- */
 uint64_t g_fence_clock, g_first_slot_clock, g_adopt_clock, g_first_state_clock, g_head_clock; int g_head_order;
 unsigned g_slot_reads[XV_E][XV_K], g_state_reads[XV_E]; _Bool g_seen_active[XV_E], g_link_seen;
-uintptr_t g_val[XV_E][XV_K]; _Bool g_counted[XV_E][XV_K];           /* HP: non-link words / HE: eras read from slots of entries that were active when last looked at */
+uintptr_t g_val[XV_E][XV_K]; _Bool g_counted[XV_E][XV_K];
+unsigned g_bslot_reads[XV_NB][XV_BS], g_hpblock_loads; int g_hpblock_order; uintptr_t g_bval[XV_NB][XV_BS]; _Bool g_bcounted[XV_NB][XV_BS];           /* HP: non-link words / HE: eras read from slots of entries that were active when last looked at */
 unsigned g_era_add_n; int g_era_add_o; extern uint64_t t_seq, t_era_seq;
 unsigned g_state_store_n, g_ab_cas_ok_n, g_ab_store_n, g_ab_xchg_n, g_cnt_sub_n; int g_state_store_k, g_state_store_o, g_state_store_v, g_ab_cas_o; uint64_t g_cnt_sub_v;
 struct node *g_ab_cas_d, *g_ab_cas_e;
+static void mon_load_blocks(void* addr, uint64_t v, int o);
 static void mon_load(void* addr, uint64_t v, int o) {
+#ifdef XV_DYNAMIC
+  mon_load_blocks(addr, v, o);
+#endif
   if (addr == (void*)&global_thread_block_list.head) { g_head_clock = xv_clock; g_head_order = o; }
   for (unsigned k = 0; k < XV_E; k++) {
     if (addr == (void*)&epool(k).state) { g_state_reads[k]++; g_seen_active[k] = ((int)v == ES_active); if (!g_first_state_clock) g_first_state_clock = xv_clock; }
@@ -163,6 +178,19 @@ static void mon_load(void* addr, uint64_t v, int o) {
     }
   }
 }
+static void mon_load_blocks(void* addr, uint64_t v, int o) {
+  for (unsigned k = 0; k < XV_E; k++) if (addr == (void*)&epool(k).hp_block) { g_hpblock_loads++; g_hpblock_order = o; }
+  for (unsigned b = 0; b < XV_NB; b++) for (unsigned i = 0; i < XV_BS; i++) if (addr == (void*)&DBLK(b)->s[i].value) {
+    g_bslot_reads[b][i]++; if (!g_first_slot_clock) g_first_slot_clock = xv_clock;
+    if (g_seen_active[0] && MP_mark(v) == 0) { g_bcounted[b][i] = 1;
+#ifdef XV_HE
+      g_bval[b][i] = (uintptr_t)(MP_get(v) >> 1);
+#else
+      g_bval[b][i] = MP_get(v);
+#endif
+    }
+  }
+}
 static void mon_fence(int o) { if (o == mo_seq_cst && !g_fence_clock) g_fence_clock = xv_clock; }
 static void mon_store(void* addr, uint64_t v, int o) {
   for (unsigned k = 0; k < XV_E; k++) if (addr == (void*)&epool(k).state) { g_state_store_n++; g_state_store_k = k; g_state_store_o = o; g_state_store_v = (int)v; }
@@ -176,8 +204,10 @@ static void mon_rmw(void* addr, uint64_t oldv, uint64_t newv, int o) {
   if (addr == (void*)&number_of_active_hps) { g_cnt_sub_n++; g_cnt_sub_v = oldv - newv; }
   if (addr == (void*)&era_clock) { g_era_add_n++; g_era_add_o = o; t_era_seq = ++t_seq; }
 }
-static _Bool gath_contains(uintptr_t w) { for (unsigned k = 0; k < XV_E; k++) for (unsigned i = 0; i < XV_K; i++) if (g_counted[k][i] && g_val[k][i] == w) return 1; return 0; }
-static _Bool gath_in_interval(uint64_t lo, uint64_t hi) { for (unsigned k = 0; k < XV_E; k++) for (unsigned i = 0; i < XV_K; i++) if (g_counted[k][i] && g_val[k][i] >= lo && g_val[k][i] <= hi) return 1; return 0; }
+static _Bool gath_contains(uintptr_t w) { for (unsigned k = 0; k < XV_E; k++) for (unsigned i = 0; i < XV_K; i++) if (g_counted[k][i] && g_val[k][i] == w) return 1;
+  for (unsigned b = 0; b < XV_NB; b++) for (unsigned i = 0; i < XV_BS; i++) if (g_bcounted[b][i] && g_bval[b][i] == w) return 1; return 0; }
+static _Bool gath_in_interval(uint64_t lo, uint64_t hi) { for (unsigned k = 0; k < XV_E; k++) for (unsigned i = 0; i < XV_K; i++) if (g_counted[k][i] && g_val[k][i] >= lo && g_val[k][i] <= hi) return 1;
+  for (unsigned b = 0; b < XV_NB; b++) for (unsigned i = 0; i < XV_BS; i++) if (g_bcounted[b][i] && g_bval[b][i] >= lo && g_bval[b][i] <= hi) return 1; return 0; }
 
 /* a nondeterministic node pointer as a choice between constant-index addresses (keeps cbmc's dereferencing field-sensitive) */
 static struct node* nondet_node(void) { unsigned k = nondet_uint(); return k < NN ? NODE(k) : (struct node*)0; }
@@ -224,6 +254,18 @@ static struct hpblock* XV_NEW_BLOCK(size_t n) { g_newblock_n++; g_newblock_size 
 static struct slot* xv_init_block(struct tcb* t) { g_initblock_n++; return &t->pointers[0]; }
 #define XV_INIT_BLOCK(t) xv_init_block(&(t))
 #define XV_INIT_BLOCK_M(self, blk) (g_initblock_n++, (struct slot*)0)
+#define HP_BLK_begin(b) hp_blk_begin(&(b))
+#define HP_BLK_end(b) hp_blk_end(&(b))
+#define HP_BLK_next_block(b) hp_blk_next_block(&(b))
+#define HP_TCB_next_block(t) hp_tcb_next_block(&(t))
+#define HP_DYN_GATHER_BLK(b, v) hp_dyn_gather_blk(&(b), (v))
+#define HP_DYN_GATHER_TCB(b, v) hp_dyn_gather_tcb(&(b), (v))
+#define HE_BLK_begin(b) he_blk_begin(&(b))
+#define HE_BLK_end(b) he_blk_end(&(b))
+#define HE_BLK_next_block(b) he_blk_next_block(&(b))
+#define HE_TCB_next_block(t) he_tcb_next_block(&(t))
+#define HE_DYN_GATHER_BLK(b, v) he_dyn_gather_blk(&(b), (v))
+#define HE_DYN_GATHER_TCB(b, v) he_dyn_gather_tcb(&(b), (v))
 #define HE_try_get_era(s, r) he_try_get_era(&(s), &(r))
 #define HE_TCB_begin(t) he_tcb_begin(&(t))
 #define HE_TCB_end(t) he_tcb_end(&(t))
@@ -243,8 +285,12 @@ static void abs_gather(const struct tcb* e, struct vec* v) {
   }
 }
 #define TCB_gather(e, v) abs_gather(&(e), &(v))
+#elif defined(XV_HE) && defined(XV_DYNAMIC)
+#define TCB_gather(e, v) he_dyn_tcb_gather(&(e), &(v))
 #elif defined(XV_HE)
 #define TCB_gather(e, v) he_tcb_gather(&(e), &(v))
+#elif defined(XV_DYNAMIC)
+#define TCB_gather(e, v) hp_dyn_tcb_gather(&(e), &(v))
 #else
 #define TCB_gather(e, v) hp_tcb_gather(&(e), &(v))
 #endif
@@ -316,6 +362,7 @@ static _Bool vec_protects(const struct vec* v, const struct node* n) {
 /* inputs (in_*): list of in_ne entries epool(0..ne-1) (WLOG in pool order: entry addresses are never compared), their states and slot
  * words; the thread's retire list npool(0..nl-1) (in this order), the global abandoned list npool(L..L+na-1); node address words */
 unsigned in_ne, in_nl, in_na, in_xl; int in_state[XV_E]; uintptr_t in_slot[XV_E][XV_K]; uintptr_t in_addr[NN]; uint64_t in_cera[NN], in_rera[NN]; unsigned in_cb;
+unsigned in_nb, in_bsize[XV_NB]; uintptr_t in_bslot[XV_NB][XV_BS];   /* dynamic strategy: entry 0 has in_nb chained blocks of in_bsize[b] slots */
 static struct node* own(unsigned i) { return NODE(i); }
 static struct node* adopted(unsigned i) { return NODE(XV_L + i); }
 #define OUTSIDE (NODE(XV_L + XV_LA))
@@ -324,6 +371,8 @@ static _Bool is_adopted(unsigned j) { return j >= XV_L && j < XV_L + in_na; }
 static void reset_ghost(void) {
   g_fence_clock = g_first_slot_clock = g_adopt_clock = g_first_state_clock = g_head_clock = g_first_delete_clock = 0; g_head_order = -1; g_link_seen = 0;
   for (unsigned k = 0; k < XV_E; k++) { g_state_reads[k] = 0; g_seen_active[k] = 0; for (unsigned i = 0; i < XV_K; i++) { g_slot_reads[k][i] = 0; g_counted[k][i] = 0; g_val[k][i] = 0; } }
+  for (unsigned b = 0; b < XV_NB; b++) for (unsigned i = 0; i < XV_BS; i++) { g_bslot_reads[b][i] = 0; g_bcounted[b][i] = 0; g_bval[b][i] = 0; }
+  g_hpblock_loads = 0; g_hpblock_order = -1;
   g_state_store_n = g_ab_cas_ok_n = g_ab_store_n = g_ab_xchg_n = g_cnt_sub_n = g_era_add_n = 0; g_double_delete = 0; g_deletes = 0; g_search_unsorted = 0; g_reclaim_unsorted = 0; g_model_overflow = 0;
   t_reset_n = t_setdel_n = t_scan_n = t_add_n = 0; t_seq = 0; xv_clock = 0;
 }
@@ -335,6 +384,17 @@ static void havoc_state(void) {
     epool(k).state = in_state[k]; epool(k).next_entry = (k + 1 < in_ne) ? ENTRY(k + 1) : (struct tcb*)0;
     for (unsigned i = 0; i < XV_K; i++) { in_slot[k][i] = nondet_uptr(); epool(k).pointers[i].value = in_slot[k][i]; epool(k).pointers[i].guard_cnt = nondet_u64(); }
   }
+  for (unsigned k = 0; k < XV_E; k++) { epool(k).hp_block = (struct hpblock*)0; epool(k).total_number_of_hps = XV_K; }
+  in_nb = 0;
+#ifdef XV_DYNAMIC
+  in_nb = nondet_uint(); XV_ASSUME(in_nb <= XV_NB);
+  for (unsigned b = 0; b < XV_NB; b++) {
+    in_bsize[b] = nondet_uint(); XV_ASSUME(in_bsize[b] >= 1 && in_bsize[b] <= XV_BS);
+    DBLK(b)->h.size = in_bsize[b]; DBLK(b)->h.next = (b + 1 < in_nb) ? &DBLK(b + 1)->h : (struct hpblock*)0;
+    for (unsigned i = 0; i < XV_BS; i++) { in_bslot[b][i] = nondet_uptr(); DBLK(b)->s[i].value = in_bslot[b][i]; DBLK(b)->s[i].guard_cnt = nondet_u64(); }
+  }
+  if (in_nb) { epool(0).hp_block = &db0.h; }
+#endif
   global_thread_block_list.head = in_ne ? ENTRY(0) : (struct tcb*)0;
   for (unsigned j = 0; j < NN; j++) {
     in_addr[j] = nondet_uptr(); XV_ASSUME(in_addr[j] != 0 && (in_addr[j] & MARK_BIT) == 0);
@@ -359,11 +419,15 @@ static void havoc_state(void) {
 static _Bool hp_protected(unsigned j) {
   for (unsigned k = 0; k < XV_E; k++) for (unsigned i = 0; i < XV_K; i++)
     if (k < in_ne && in_state[k] == ES_active && MP_mark(in_slot[k][i]) == 0 && MP_get(in_slot[k][i]) == in_addr[j]) return 1;
+  for (unsigned b = 0; b < XV_NB; b++) for (unsigned i = 0; i < XV_BS; i++)
+    if (in_ne >= 1 && in_state[0] == ES_active && b < in_nb && i < in_bsize[b] && MP_mark(in_bslot[b][i]) == 0 && MP_get(in_bslot[b][i]) == in_addr[j]) return 1;
   return 0;
 }
 static _Bool he_protected(unsigned j) {
   for (unsigned k = 0; k < XV_E; k++) for (unsigned i = 0; i < XV_K; i++)
     if (k < in_ne && in_state[k] == ES_active && MP_mark(in_slot[k][i]) == 0) { uint64_t e = MP_get(in_slot[k][i]) >> 1; if (in_cera[j] <= e && e <= in_rera[j]) return 1; }
+  for (unsigned b = 0; b < XV_NB; b++) for (unsigned i = 0; i < XV_BS; i++)
+    if (in_ne >= 1 && in_state[0] == ES_active && b < in_nb && i < in_bsize[b] && MP_mark(in_bslot[b][i]) == 0) { uint64_t e = MP_get(in_bslot[b][i]) >> 1; if (in_cera[j] <= e && e <= in_rera[j]) return 1; }
   return 0;
 }
 static unsigned occ(struct node* p, struct node* x) { unsigned c = 0; for (unsigned s = 0; s < NN + 1; s++) if (p) { if (p == x) c++; p = p->next; } return c; }
@@ -374,12 +438,14 @@ static unsigned chain_len(struct node* p, _Bool* wf) { unsigned c = 0; for (unsi
 #define PROTECTED(j) he_protected(j)
 #define OBL_SPARES "hescan.spares_protected_interval"
 #define OBL_CONSERVE "hescan.conserve"
+#define OBL_DYN "hescan.gather.dynamic_all_blocks"
 #define SCAN(t) he_scan(t)
 #define DTOR(t) he_td_dtor(t)
 #else
 #define PROTECTED(j) hp_protected(j)
 #define OBL_SPARES "hpscan.spares_protected"
 #define OBL_CONSERVE "hpscan.conserve"
+#define OBL_DYN "hpscan.gather.dynamic_all_blocks"
 #define SCAN(t) hp_scan(t)
 #define DTOR(t) hp_td_dtor(t)
 #endif
@@ -411,7 +477,12 @@ void h_scan(void) {
     unsigned o = occ(local_thread_data.retire_list, NODE(j)); _Bool prot = PROTECTED(j);
     if (is_own(j) || is_adopted(j)) {
       XV_OBL(OBL_CONSERVE, (npool(j).deleted == 1 && o == 0) || (npool(j).deleted == 0 && o == 1));
-      if (prot) { XV_OBL(OBL_SPARES, npool(j).deleted == 0 && o == 1); if (is_own(j)) XV_CANARY("scan.own_spared"); else XV_CANARY("scan.adopted_spared"); }
+      if (prot) { XV_OBL(OBL_SPARES, npool(j).deleted == 0 && o == 1); if (is_own(j)) XV_CANARY("scan.own_spared"); else XV_CANARY("scan.adopted_spared");
+#ifdef XV_DYNAMIC
+        { _Bool saved_nb = in_nb != 0; unsigned nb0 = in_nb; in_nb = 0; _Bool without_blocks = PROTECTED(j); in_nb = nb0;     /* protected ONLY by a slot of a dynamic block */
+          if (!without_blocks) { XV_CANARY("scan.protected_by_dynamic_block"); if (nb0 == 2) XV_CANARY("scan.protected_by_second_block_maybe"); } (void)saved_nb; }
+#endif
+      }
       else { XV_OBL("hpscan.skips_inactive", npool(j).deleted == 1 && o == 0); if (is_own(j)) XV_CANARY("scan.own_deleted"); else XV_CANARY("scan.adopted_deleted"); }
       /* C17: a word/era in a NON-active entry that would protect this node does not keep it alive */
       for (unsigned k = 0; k < XV_E; k++) for (unsigned i = 0; i < XV_K; i++)
@@ -493,6 +564,44 @@ void h_gather(void) {
     XV_OBL("hpscan.gather.all_slots", g_slot_reads[k][i] == 1); }
   { unsigned o = nondet_uint(), i = nondet_uint(); XV_ASSUME(o < XV_E && o != k && i < XV_K); XV_OBL("hpscan.gather.exact", g_slot_reads[o][i] == 0 && g_state_store_n == 0); }
   if (cnt == XV_K && n0 > 0) XV_CANARY("gather.full");
+}
+#endif
+
+/* =============================== dynamic strategy: gather over the in-object array and the chained blocks =============================== */
+#if defined(XV_DYNAMIC) && !defined(XV_ABS_VEC)
+#ifdef XV_HE
+#define GATHER_DYN_REAL(e, v) he_dyn_tcb_gather((e), (v))
+#else
+#define GATHER_DYN_REAL(e, v) hp_dyn_tcb_gather((e), (v))
+#endif
+void h_gather_dyn(void) {
+  havoc_state(); XV_ASSUME(in_ne >= 1);
+  in_vec.n = nondet_uchar(); XV_ASSUME(in_vec.n <= XV_K * (XV_E - 1));        /* an arbitrary prefix, room for every slot */
+  for (unsigned i = 0; i <= VCAP; i++) in_vec.data[i] = nondet_uptr();
+  struct vec v0 = in_vec; unsigned char n0 = in_vec.n;
+  g_seen_active[0] = 1;
+  GATHER_DYN_REAL(ENTRY(0), &in_vec);
+  /* the expected sequence: in-object slots, then the slots of block 0, then of block 1 (as far as the chain and the sizes go) */
+  uintptr_t w[XV_K + XV_NB * XV_BS]; _Bool live[XV_K + XV_NB * XV_BS]; unsigned reads[XV_K + XV_NB * XV_BS];
+  for (unsigned i = 0; i < XV_K; i++) { w[i] = in_slot[0][i]; live[i] = 1; reads[i] = g_slot_reads[0][i]; }
+  for (unsigned b = 0; b < XV_NB; b++) for (unsigned i = 0; i < XV_BS; i++) { unsigned c = XV_K + b * XV_BS + i; w[c] = in_bslot[b][i]; live[c] = (b < in_nb && i < in_bsize[b]); reads[c] = g_bslot_reads[b][i]; }
+  unsigned pos = 0;
+  for (unsigned c = 0; c < XV_K + XV_NB * XV_BS; c++) {
+    XV_OBL(OBL_DYN, reads[c] == (live[c] ? 1 : 0));                                   /* every slot of the array and of every chained block exactly once, nothing else */
+    if (live[c] && MP_mark(w[c]) == 0) { XV_OBL(OBL_DYN, in_vec.data[n0 + pos] == WORD_OF(w[c])); pos++; }    /* non-link words appended in order */
+  }
+  XV_OBL(OBL_DYN, in_vec.n == n0 + pos && !g_model_overflow);
+  for (unsigned p = 0; p < VCAP; p++) if (p < n0) XV_OBL(OBL_DYN, in_vec.data[p] == v0.data[p]);
+  /* the walk follows hp_block (acquire) and next until null; nothing is written */
+  XV_OBL(OBL_DYN, g_hpblock_loads == 1 && XV_IS_ACQUIRE(g_hpblock_order) && g_state_store_n == 0);
+  for (unsigned b = 0; b < XV_NB; b++) { XV_OBL(OBL_DYN, DBLK(b)->h.size == in_bsize[b] && DBLK(b)->h.next == ((b + 1 < in_nb) ? &DBLK(b + 1)->h : (struct hpblock*)0));
+    for (unsigned i = 0; i < XV_BS; i++) XV_OBL(OBL_DYN, DBLK(b)->s[i].value == in_bslot[b][i]); }
+  for (unsigned i = 0; i < XV_K; i++) XV_OBL(OBL_DYN, epool(0).pointers[i].value == in_slot[0][i]);
+  XV_OBL(OBL_DYN, epool(0).hp_block == (in_nb ? &db0.h : (struct hpblock*)0));
+  for (unsigned k = 1; k < XV_E; k++) for (unsigned i = 0; i < XV_K; i++) XV_OBL(OBL_DYN, g_slot_reads[k][i] == 0);
+  if (in_nb == 0) XV_CANARY("gather_dyn.no_block");
+  if (in_nb == 2 && in_bsize[0] == XV_BS && in_bsize[1] == 1 && pos == XV_K + XV_BS + 1) XV_CANARY("gather_dyn.two_blocks_all_values");
+  if (in_nb == 1 && in_bsize[0] == 1) XV_CANARY("gather_dyn.one_small_block");
 }
 #endif
 
